@@ -218,6 +218,15 @@ Proof.
   destruct ta; try discriminate; destruct tb; try discriminate; apply notok_fail.
 Qed.
 
+(* unary minus on a class whose head is a rigid type other than int / float *)
+Lemma neg_rejects g sp a s t :
+  head s a = Some t -> rigid t = true -> (match t with HInt | HFloat => false | _ => true end) = true ->
+  notok (g_neg (gfix g) sp a s).
+Proof.
+  intros Ha R Nn. destruct g as [|g]; [apply notok_fuel|]. cbn [gfix gstep g_neg]. unfold neg_body.
+  rewrite (bind_ok _ _ _ _ _ (find_type_ok _ _ _ Ha)). destruct t; try discriminate; apply notok_fail.
+Qed.
+
 (* ------------------------------------------------------------------ the mismatch kinds *)
 
 Section Kinds.
@@ -329,8 +338,7 @@ Section Kinds.
     apply bind_notok_l. apply (check_rejects g sp x CNeg s2 W2 C2).
     intros g' s' W' E'. cbn [check_one].
     assert (Hx' : head s' x = Some ta) by (apply (head_keep s2 s' x ta E'); [rewrite Hd2|]; assumption).
-    rewrite (bind_ok _ _ _ _ _ (find_type_ok _ _ _ Hx')).
-    destruct ta; try discriminate; apply notok_fail.
+    eapply neg_rejects; eassumption.
   Qed.
 
   (* `and` / `or` with a non-bool operand, on either side *)
